@@ -310,8 +310,7 @@ Proof.
               (parse_primary tbl tm f d rest2 >>= fun '(rhs, ts3) =>
                (if cur_is_not ts3 then next_prec tbl tm ts3 else Ok (cur_prec tbl ts3)) >>= fun '(cur_l_bp, _) =>
                (if (rb <? cur_l_bp)%Z then parse_op tbl tm f d rb rhs ts3 else Ok (rhs, ts3)) >>= fun '(rhs', ts4) =>
-               if MAX_DEPTH <? d + 1 then Err else
-               built (node rhs') ts4 >>= fun '(node'', ts5) => parse_op_loop tbl tm f (d + 1) p node'' ts5) = Ok (a, r) ->
+               built (node rhs') ts4 >>= fun '(node'', ts5) => parse_op_loop tbl tm f d p node'' ts5) = Ok (a, r) ->
               exists c, optoks ++ rest2 = c ++ r /\ G (cl ++ c) a).
     { intros optoks node rb rest2 Hrb Hnode HT.
       bind_inv HT. destruct v as [rhs ts3]. destruct (I2 _ _ _ _ E) as (c1 & -> & G1).
@@ -322,7 +321,6 @@ Proof.
         - exact (I7 _ _ _ _ Hrb _ _ E1 c1 G1).
         - inversion E1; subst. exists []. rewrite app_nil_r. auto. }
       destruct Hr as (c2 & -> & G2).
-      destruct (MAX_DEPTH <? d + 1); [discriminate|].
       bind_inv HT. destruct v as [node'' ts5]. apply built_inv in E2 as [-> ->].
       destruct (I8 _ _ _ _ Hp _ _ HT (cl ++ optoks ++ c1 ++ c2) (Hnode _ _ G2)) as (c3 & -> & G3).
       exists (optoks ++ c1 ++ c2 ++ c3). split; [rewrite <- !app_assoc; reflexivity|].
